@@ -369,7 +369,9 @@ impl Bindgen for FunctionBindgen<'_, '_> {
                 let mut result = format!("{name}::empty()");
                 for (i, op) in operands.iter().enumerate() {
                     result.push_str(&format!(
-                        " | {name}::from_bits_retain((({op} as {repr}) << {}) as _)",
+                        // `op` is an `i32`: widen it as unsigned so that bit 31 of one
+                        // word doesn't spill into the flags of the next one.
+                        " | {name}::from_bits_retain((({op} as u32 as {repr}) << {}) as _)",
                         i * 32
                     ));
                 }
